@@ -1282,7 +1282,10 @@ func main() {
 	}
 
 	if *nomodel {
-		if err := rep.Write(*out); err != nil {
+		if rep.Cases == nil {
+		rep.Cases = []vh.Case{}
+	}
+	if err := rep.Write(*out); err != nil {
 			fmt.Fprintln(os.Stderr, err)
 			os.Exit(2)
 		}
@@ -1321,6 +1324,9 @@ func main() {
 			}
 		}
 		rep.Add(c)
+	}
+	if rep.Cases == nil {
+		rep.Cases = []vh.Case{}
 	}
 	if err := rep.Write(*out); err != nil {
 		fmt.Fprintln(os.Stderr, err)
